@@ -10,7 +10,8 @@ import tempfile
 from .. import core, realcode
 
 VALUES = [0, 1, -7, 123456789, 2 ** 40, 1.5, -0.25, 1e-7, 1e15, 0.1, True, False, 'text', 'x y', "it's", 'Ünï', '  padded  ', '007', 'TRUE', '1.5',
-          datetime.datetime(2024, 2, 29, 12, 30, 15), datetime.datetime(1999, 12, 31), datetime.date(2024, 1, 1), datetime.time(1, 2, 3), 'line\nbreak', '#N/A']
+          datetime.datetime(2024, 2, 29, 12, 30, 15), datetime.datetime(1999, 12, 31), datetime.date(2024, 1, 1), datetime.time(1, 2, 3), 'line\nbreak', '#N/A',
+          datetime.datetime(2024, 3, 5, 14, 30, 15, 250000), datetime.datetime(2001, 1, 1, 0, 0, 0, 500000), ' =1+1', '\t=A1', "'=1"]
 TITLES = ['Sheet1', 'Data 2', "o'clock", 'Лист', 'A1', 'SUM', 'x-y', 'Z', 'very long sheet title 123', '2024']
 
 
@@ -64,15 +65,25 @@ def run(tier, seed):
                         formulas[(fc, fr + 1)] = ('array', '=SUM(1,2)', '%s%d:%s%d' % (col(fc), fr + 1, col(fc), fr + 2))
                 for (c, r), v in cells.items():
                     ws.cell(row=r, column=c, value=v)
+                # formatted cells without a value: they belong to the sheet (its size covers them) and read as blank
+                styled = set()
+                if cells and rng.random() < 0.4:
+                    from openpyxl.styles import Font
+                    W0, H0 = max(c for c, _ in cells), max(r for _, r in cells)
+                    for _ in range(rng.randint(1, 3)):
+                        c, r = rng.randint(1, W0 + 3), rng.randint(1, H0 + 2)
+                        if (c, r) not in cells and (c, r) not in formulas:
+                            ws.cell(row=r, column=c).font = Font(bold=True)
+                            styled.add((c, r))
                 for (c, r), f in formulas.items():
                     if isinstance(f, tuple):
                         ws.cell(row=r, column=c).value = ArrayFormula(f[2], f[1])
                     else:
                         ws.cell(row=r, column=c, value=f)
-                plan.append((t, cells, formulas))
+                plan.append((t, cells, formulas, styled))
             # a last sheet of probes: plain references into the other sheets' bounding boxes (blanks right of a short row, empty rows, the far corner)
             probes = {}
-            for t, cells, formulas in plan:
+            for t, cells, formulas, _styled in plan:
                 if not cells:
                     continue
                 W0, H0 = max(c for c, _ in cells), max(r for _, r in cells)
@@ -86,7 +97,7 @@ def run(tier, seed):
                 for (c, r), (f, _, _, _) in probes.items():
                     ws.cell(row=r, column=c, value=f)
                 titles = titles + ['Probe sheet']
-                plan.append(('Probe sheet', {}, {k: v[0] for k, v in probes.items()}))
+                plan.append(('Probe sheet', {}, {k: v[0] for k, v in probes.items()}, set()))
             path = os.path.join(d, 'wb%d.xlsx' % b)
             wb.save(path)
             if b % 3 == 1:
@@ -118,8 +129,8 @@ def run(tier, seed):
                 if got != want:
                     chk.violation({'why': 'a reference to a cell inside the bounding box of a sparse sheet does not give the stored value (blank where nothing is stored)',
                                    'formula': f, 'impl': got, 'stored': repr(want_v), 'stream': 'probe'})
-            for s, (t, cells, formulas) in enumerate(plan):
-                allc = set(cells) | set(formulas)
+            for s, (t, cells, formulas, styled) in enumerate(plan):
+                allc = set(cells) | set(formulas) | styled
                 W = max([c for c, _ in allc] or [0])
                 H = max([r for _, r in allc] or [0])
                 chk.count('sheets')
